@@ -441,6 +441,155 @@ Proof.
   split; eapply mask_in_bounds; exact Hc.
 Qed.
 
+(* ---------------------------------------------------------------- inline / reference predicates agree *)
+Lemma le_thr_spec : forall p k, le_thr p = Some k -> forall len, holds p len = (len <=? k).
+Proof.
+  intros [op rhs] k H len. unfold le_thr, holds in *. cbn [pr_op pr_rhs] in *.
+  destruct op as [|[[q|q|]|[q|q|]|]]; cbv iota beta in H |- *; try discriminate.
+  - destruct (rhs =? 0) eqn:E; [discriminate|]. injection H as H. apply N.eqb_neq in E.
+    destruct (len <? rhs) eqn:A; destruct (len <=? k) eqn:B; try reflexivity; lia.
+  - injection H as H. subst k. reflexivity.
+Qed.
+
+Lemma gt_thr_spec : forall p k, gt_thr p = Some k -> forall len, holds p len = negb (len <=? k).
+Proof.
+  intros [op rhs] k H len. unfold gt_thr, holds in *. cbn [pr_op pr_rhs] in *.
+  destruct op as [|[[q|q|]|[q|q|]|]]; cbv iota beta in H |- *; try discriminate.
+  - destruct (rhs =? 0) eqn:E; [discriminate|]. injection H as H. apply N.eqb_neq in E.
+    destruct (rhs <=? len) eqn:A; destruct (len <=? k) eqn:B; try reflexivity; lia.
+  - injection H as H. subst k. destruct (rhs <? len) eqn:A; destruct (len <=? rhs) eqn:B; try reflexivity; lia.
+Qed.
+
+Lemma optN_is_eq : forall o k, optN_is o k = true -> o = Some k.
+Proof. intros [x|] k H; cbn in H; [apply N.eqb_eq in H; subst; reflexivity|discriminate]. Qed.
+
+(* if every site tests the same threshold, then for EVERY length: the array holds the variant the row writer
+   expects, the row writer stores the variant the row reader expects, no assertion fires, the bytes read back are
+   the `len` bytes written; and the value is inline exactly when len <= k *)
+Theorem string_repr_roundtrip : forall S k, preds_agree S k = true ->
+  forall len,
+    roundtrip S len = Safe len /\
+    push_view S len = Safe (if len <=? k then RInline else RReference) /\
+    (holds (sv_inline S) len = holds (sp_inline S) len) /\
+    (holds (sv_reference S) len = negb (holds (sv_inline S) len)) /\
+    (holds (sp_reference S) len = negb (holds (sp_inline S) len)).
+Proof.
+  intros S k H len. unfold preds_agree in H.
+  repeat (apply andb_true_iff in H; destruct H as [H ?H]).
+  apply optN_is_eq in H, H0, H1, H2, H3, H4, H5, H6, H7.
+  pose proof (le_thr_spec _ _ H len) as A1. pose proof (le_thr_spec _ _ H7 len) as A2.
+  pose proof (le_thr_spec _ _ H6 len) as A3. pose proof (le_thr_spec _ _ H5 len) as A4.
+  pose proof (le_thr_spec _ _ H4 len) as A5. pose proof (gt_thr_spec _ _ H3 len) as B1.
+  pose proof (gt_thr_spec _ _ H2 len) as B2. pose proof (gt_thr_spec _ _ H1 len) as B3.
+  pose proof (gt_thr_spec _ _ H0 len) as B4.
+  unfold roundtrip, push_view, row_write, row_read.
+  rewrite A1, A2, A3, A4, B1, B2, B3, B4.
+  destruct (len <=? k); cbn [negb]; repeat split; try reflexivity; try (rewrite A5; reflexivity).
+Qed.
+
+(* the bug class: a reader whose test is `len < k` where the writers use `len <= k` reads the k-byte value,
+   stored inline, through the pointer variant *)
+Example string_repr_mismatch_is_wild :
+  let le12 := {| pr_op := 1; pr_rhs := 12 |} in let gt12 := {| pr_op := 2; pr_rhs := 12 |} in
+  let S := {| push_inline := le12; sv_inline := le12; sv_reference := gt12; sv_inline_assert := le12;
+              sv_reference_assert := gt12; sp_inline := {| pr_op := 0; pr_rhs := 12 |};
+              sp_reference := {| pr_op := 3; pr_rhs := 12 |}; sp_inline_assert := le12; sp_reference_assert := gt12 |} in
+  roundtrip S 12 = Wild /\ roundtrip S 11 = Safe 11 /\ roundtrip S 13 = Safe 13 /\ preds_agree S 12 = false.
+Proof. cbn zeta. repeat split; reflexivity. Qed.
+
+(* ---------------------------------------------------------------- heap sizes cover the heap writes *)
+Lemma write_contrib_eq : forall S a row c, heap_contrib S a row = Some c -> write_contrib S a row = Some c.
+Proof.
+  intros S a row c H. unfold heap_contrib in H. unfold write_contrib.
+  destruct (nth_error (a_valid a) row) as [v|] eqn:EV; [|discriminate].
+  destruct (forallb (fun b => b) (a_valid a)) eqn:EA.
+  - rewrite forallb_forall in EA. assert (v = true) by (apply EA; eapply nth_error_In; exact EV). subst v.
+    destruct (nth_error (a_sel a) row); [|discriminate]. destruct (nth_error (a_lens a) n); [|discriminate].
+    injection H as H. subst c. destruct (holds (sv_inline S) n0); reflexivity.
+  - destruct v; [|exact H].
+    destruct (nth_error (a_sel a) row); [|discriminate]. destruct (nth_error (a_lens a) n); [|discriminate].
+    injection H as H. subst c. destruct (holds (sv_inline S) n0); reflexivity.
+Qed.
+
+Lemma add_array_spec : forall S a rows sizes sizes',
+  add_array S a rows sizes = Some sizes' ->
+  List.length sizes' = List.length rows /\ List.length sizes = List.length rows /\
+  forall i row s, nth_error rows i = Some row -> nth_error sizes i = Some s ->
+    exists c, heap_contrib S a row = Some c /\ nth_error sizes' i = Some (s + c).
+Proof.
+  intros S a rows. induction rows as [|r rs IH]; intros sizes sizes' H; destruct sizes as [|s ss]; cbn [add_array] in H; try discriminate.
+  - injection H as H. subst sizes'. repeat split; intros i row s0 Hr; destruct i; discriminate.
+  - destruct (heap_contrib S a r) as [c|] eqn:EC; [|discriminate].
+    destruct (add_array S a rs ss) as [rest|] eqn:ER; [|discriminate]. injection H as H. subst sizes'.
+    destruct (IH ss rest ER) as [L1 [L2 Hall]]. cbn [List.length]. split; [lia|]. split; [lia|].
+    intros i row s0 Hr Hs. destruct i as [|i']; cbn [nth_error] in *.
+    + injection Hr as Hr. injection Hs as Hs. subst. exists c. auto.
+    + apply (Hall i' row s0 Hr Hs).
+Qed.
+
+Lemma heap_sizes_fold : forall S arrays rows sizes0 sizes,
+  fold_left (fun acc a => match acc with Some sz => add_array S a rows sz | None => None end) arrays (Some sizes0) = Some sizes ->
+  List.length sizes0 = List.length rows ->
+  List.length sizes = List.length rows /\
+  forall i row s0, nth_error rows i = Some row -> nth_error sizes0 i = Some s0 ->
+    exists w, fold_left (fun acc a => match acc, write_contrib S a row with Some x, Some c => Some (x + c) | _, _ => None end)
+                        arrays (Some s0) = Some w /\ nth_error sizes i = Some w.
+Proof.
+  intros S arrays. induction arrays as [|a rest IH]; intros rows sizes0 sizes H Hlen; cbn [fold_left] in H.
+  - injection H as H. subst sizes. split; [exact Hlen|]. intros i row s0 Hr Hs. exists s0. cbn [fold_left]. auto.
+  - destruct (add_array S a rows sizes0) as [sz1|] eqn:EA.
+    + destruct (add_array_spec S a rows sizes0 sz1 EA) as [L1 [_ Hall]].
+      destruct (IH rows sz1 sizes H L1) as [L2 Hrest]. split; [exact L2|].
+      intros i row s0 Hr Hs. destruct (Hall i row s0 Hr Hs) as [c [Hc Hn]].
+      destruct (Hrest i row (s0 + c) Hr Hn) as [w [Hw Hnw]].
+      exists w. split; [|exact Hnw]. cbn [fold_left]. rewrite (write_contrib_eq S a row c Hc). exact Hw.
+    + exfalso. clear -H. induction rest as [|b r IHr]; cbn [fold_left] in H; [discriminate|exact (IHr H)].
+Qed.
+
+(* the heap size computed for output row i is exactly the number of bytes the writer copies to the heap for the
+   row SELECTED at position i (valid, non-inline strings of every array), whatever the selection *)
+Theorem heap_sizes_cover_writes : forall S arrays rows sizes,
+  compute_heap_sizes S arrays rows = Some sizes ->
+  List.length sizes = List.length rows /\
+  forall i row, nth_error rows i = Some row ->
+    exists w, bytes_written S arrays row = Some w /\ nth_error sizes i = Some w.
+Proof.
+  intros S arrays rows sizes H. unfold compute_heap_sizes in H.
+  destruct (heap_sizes_fold S arrays rows _ sizes H (repeat_length _ _)) as [L Hall].
+  split; [exact L|]. intros i row Hr. unfold bytes_written. apply (Hall i row 0 Hr).
+  apply nth_error_repeat. apply nth_error_Some. rewrite Hr. discriminate.
+Qed.
+
+(* and the heap block reserved for the append holds them: pointer i starts at the sum of the sizes before it,
+   row i's bytes end before pointer i+1 and before the end of the block, whose size is the sum of all sizes *)
+Theorem heap_rows_within_block : forall sizes i off,
+  nth_error (fst (heap_block_of sizes)) i = Some off ->
+  exists s, nth_error sizes i = Some s /\ off + s <= snd (heap_block_of sizes) /\
+            forall j off2, (i < j)%nat -> nth_error (fst (heap_block_of sizes)) j = Some off2 -> off + s <= off2.
+Proof.
+  intros sizes i off H. unfold heap_block_of in *.
+  destruct (offsets_from_spec _ (fun s => s) sizes 0 i off H) as [s [Hs [_ [Hend Hlater]]]].
+  exists s. auto.
+Qed.
+
+Lemma heap_block_total : forall sizes s0, snd (offsets_from (fun s : N => s) s0 sizes) = s0 + fold_left N.add sizes 0.
+Proof.
+  induction sizes as [|x xs IH]; intros s0; cbn [offsets_from snd fold_left]; [lia|].
+  rewrite IH. assert (G : forall l a, fold_left N.add l a = a + fold_left N.add l 0).
+  { induction l as [|y ys IHl]; intros a; cbn [fold_left]; [lia|]. rewrite IHl. rewrite (IHl (0 + y)). lia. }
+  rewrite (G xs (0 + x)). lia.
+Qed.
+
+Example heap_sizes_example :
+  let le12 := {| pr_op := 1; pr_rhs := 12 |} in let gt12 := {| pr_op := 2; pr_rhs := 12 |} in
+  let S := {| push_inline := le12; sv_inline := le12; sv_reference := gt12; sv_inline_assert := le12;
+              sv_reference_assert := gt12; sp_inline := le12; sp_reference := gt12; sp_inline_assert := le12;
+              sp_reference_assert := gt12 |} in
+  (* rows 3 and 1 selected; row 1 is NULL, row 3 holds a 20-byte string, row 0 a 12-byte string *)
+  compute_heap_sizes S [{| a_valid := [true; false; true; true]; a_sel := [0; 1; 2; 3]%nat; a_lens := [12; 30; 13; 20] |}] [3; 1; 0]%nat
+  = Some [20; 0; 0].
+Proof. reflexivity. Qed.
+
 (* ---------------------------------------------------------------- the constants of the current source *)
 From GV Require gen.TablesLayout.
 
@@ -460,3 +609,25 @@ Qed.
 
 Theorem src_row_index_width : TablesLayout.row_index_width = Some Layout.row_index_width.
 Proof. reflexivity. Qed.
+
+(* every inline/reference test of the current source - array push, StringView and StringPtr is_inline /
+   is_reference, the four constructor assertions - is the same threshold k = MAX_INLINE_LEN = the inline buffer
+   length; the row writer takes its decision from StringView::is_inline and compute_heap_sizes tests the validity
+   of the SELECTED row (scanned) *)
+From GV Require model.LayoutSrc.
+Theorem src_string_predicates_agree :
+  exists S k, LayoutSrc.src_str_preds = Some S /\ TablesLayout.max_inline_len = Some k /\
+              TablesLayout.inline_buffer_len = Some k /\ preds_agree S k = true /\
+              (exists n, TablesLayout.row_writer_uses_view_is_inline = Some n) /\
+              TablesLayout.heap_sizes_validity_by_selected_row = Some 1 /\
+  forall len,
+    roundtrip S len = Safe len /\
+    push_view S len = Safe (if len <=? k then RInline else RReference) /\
+    (holds (sv_inline S) len = holds (sp_inline S) len) /\
+    (holds (sv_reference S) len = negb (holds (sv_inline S) len)) /\
+    (holds (sp_reference S) len = negb (holds (sp_inline S) len)).
+Proof.
+  eexists. exists 12. split; [reflexivity|]. split; [reflexivity|]. split; [reflexivity|].
+  split; [reflexivity|]. split; [eexists; reflexivity|]. split; [reflexivity|].
+  apply string_repr_roundtrip. reflexivity.
+Qed.
